@@ -89,6 +89,18 @@ def r2(ctx):
     ctx.require(ok, b, 'heap-entry', 'heap entries are Reverse((freq, word)): the least frequent entry is on top', 'heap entry is %s' % show_in(b, v), p.span)
     src = core(loop_source(b, nx[0])) if nx else ()
     ctx.require(has(src, Call('fold', ANY, ANY, ANY)), b, 'heap-source', 'every counted entry is pushed', None)
+    # the selection uses the TOTAL order of the entries (freq, then word): a shortcut that compares the frequency component with the
+    # heap top decides ties by arrival order, i.e. by the iteration order of the merged HashMap -- different from call to call
+    for g in edge_guards(b):
+        t_, pol_ = g.atom()
+        c_ = peel(t_)
+        if pol_ is None or lp is None or g.block not in lp.blocks or c_[0] != 'bin' or c_[1] not in ('Lt', 'Le', 'Gt', 'Ge', 'Eq', 'Ne'):
+            continue
+        if any(has(init_value(b, x), Call('BinaryHeap::peek', ANY)) or has(init_value(b, x), Call('BinaryHeap::peek_mut', ANY)) or
+               has(x, Call('BinaryHeap::peek', ANY)) or has(x, Call('BinaryHeap::peek_mut', ANY)) for x in (c_[2], c_[3])):
+            ctx.fail(b, 'selection-total-order', 'Dictionary::create compares a component of the heap top (`%s`, line %d) instead of whole entries: among equally frequent '
+                     'words the ones kept depend on the order in which the merged HashMap is iterated, which differs from call to call and between thread counts'
+                     % (show_in(b, t_)[:100], b.blocks[g.block].term.span['line']), b.blocks[g.block].term.span)
     pops = [t for t in b.calls(r'BinaryHeap::pop$')]
     inl = [t for t in pops if lp and t.bb in lp.blocks]
     ok = len(inl) == 1
